@@ -1,16 +1,20 @@
 """E1: harness crates over the real diplomat-runtime sources (see DESIGN.md 2.1)."""
 import os
+import re
 from vlib import *
 
 RT_MAIN = os.path.join(VERIF, "harness", "rt_main")
 RT_LIB = os.path.join(VERIF, "harness", "rt_lib")
 JS_LAYOUT = os.path.join(VERIF, "harness", "js_layout")
 # crate dir, tag, properties served, needs /repo's Cargo.lock
-CRATES = [(RT_MAIN, "rt_main", {"C03", "C10", "C12", "C16"}, False),
+CRATES = [(RT_MAIN, "rt_main", {"C01", "C03", "C10", "C12", "C16"}, False),
           (RT_LIB, "rt_lib", {"C03", "C16"}, True),
           (JS_LAYOUT, "js_layout", {"C08"}, True)]
 
 BOUNDS = {
+    "C01": {"quick": "runtime prototypes of the generated diplomat_runtime.h (is_str, simple_write, buffer_write_create/get_bytes/len/destroy) against the compiled runtime: "
+                     "buffer size 1..5, capacity 0..3, one chunk of 0..5 / 0..3 ASCII bytes, all values symbolic",
+            "thorough": "same as quick"},
     "C08": {"quick": "tool/src/js/layout.rs::struct_field_info / type_size_alignment_and_scalar_count / primitive_size_alignment: field sequences of length 1..4 "
                      "whose variants are fixed per harness (22 masks over primitive / enum / primitive slice / str slice) with all 15 primitive kinds symbolic in every "
                      "primitive position (15^4 kind sequences per mask); DiplomatOption<prim> and DiplomatOption<enum> as single fields; unwind 7 (recursion bound 2 for options)",
@@ -35,13 +39,13 @@ BOUNDS = {
 
 ASSUMPTIONS = [
     "Kani 0.68 / CBMC 6.11 memory model (x86_64-unknown-linux-gnu, 64-bit pointers), CaDiCaL verdicts trusted",
-    "harness crates #[path]-include /repo/runtime/src/{write,slices,result,callback}.rs (rt_main) or depend on /repo/runtime by path (rt_lib): the code verified is the working tree's, compiled in Kani's dev profile (debug assertions and overflow checks on)",
+    "harness crate rt_main is rooted on a per-run re-rooted copy of /repo/runtime/src/lib.rs (inner crate attributes dropped, every `mod x;` pointed at /repo/runtime/src/x.rs) so the real modules and root items are compiled with private items reachable; rt_lib depends on /repo/runtime by path: the code verified is the working tree's, compiled in Kani's dev profile (debug assertions and overflow checks on)",
     "private struct fields are read through #[repr(C)] mirror structs (the documented FFI layout); a size mismatch is asserted",
     "bounds stated in coverage.bounds; nothing is claimed beyond them (unwinding assertions are on, so a too-small unwind bound fails instead of truncating)",
 ]
 
 PER_PROP_ASSUMPTIONS = {
-    "C08": ["reduced scope: the Rust layout routine only; the JS text the back end emits (struct.js.jinja, runtime.mjs, argument flattening in gen.rs) has no symbolic engine here",
+    "C08": ["kernel half (this crate): the Rust layout routine only; the JS text the back end emits (struct.js.jinja, runtime.mjs, argument flattening in gen.rs) has no symbolic engine here and is covered by the emitted-JS half (node-extracted access facts, see coverage.js_*)",
             "reference model: C layout rules with wasm32 sizes (pointers, usize, enums = 4 bytes) and docs/wasm_abi_quirks.md typed padding (gap after a field counted in units of that field's alignment)",
             "the TypeContext reference handed to the routine is uninitialised storage: any read of it would be flagged by CBMC, so 'no nested struct' is part of the bound",
             "sequences containing DiplomatOption fields and nested options are outside the bound (CBMC cannot keep a boxed discriminant concrete; probes timed out)"],
@@ -79,6 +83,46 @@ def prepare_rt_root():
         fh.write("// generated on every run by /verif/lib/engine_e1.py from %s/runtime/src/lib.rs\n" % REPO + "\n".join(lines))
 
 
+def prepare_rt_protos(out, prop):
+    """C01 / C12: regenerate the C runtime header with the working tree's tool and generate the prototype harnesses
+    (lib/rtprotos.py). Returns True when the generated module is in place."""
+    import cfront
+    import engine_e2
+    import rtprotos
+    d = os.path.join(CACHE, "gen", "c_runtime")
+    shutil.rmtree(d, ignore_errors=True)
+    os.makedirs(os.path.join(d, "src"))
+    lib = os.path.join(d, "src", "lib.rs")
+    with open(lib, "w") as fh:
+        fh.write("#[diplomat::bridge]\npub mod ffi {\n    use diplomat_runtime::DiplomatWrite;\n    #[diplomat::opaque]\n    pub struct W(u8);\n"
+                 "    impl W {\n        pub fn describe(&self, w: &mut DiplomatWrite) {}\n    }\n}\n")
+    ok, log_ = engine_e2.run_tool("c", lib, os.path.join(d, "c"))
+    if not ok or not os.path.exists(os.path.join(d, "c", "diplomat_runtime.h")):
+        out["inconclusive"].append("runtime prototypes: diplomat-tool c failed: %s" % log_[-500:])
+        return False
+    cm, probs = cfront.load(os.path.join(d, "c"), d, exclude_runtime_fns=False)
+    if cm is None:
+        out["inconclusive"].append("runtime prototypes: the generated C headers could not be read by goto-cc: %s" % "; ".join(probs)[-800:])
+        return False
+    try:
+        txt, statics, _hs = rtprotos.generate(cm, REPO, [prop.lower()])
+    except Exception as e:       # a shape outside what the generator walks: no verdict, never an alarm
+        out["inconclusive"].append("runtime prototypes: generator could not walk the declarations: %r" % e)
+        return False
+    with open(os.path.join(CACHE, "gen", "rt_protos_gen.rs"), "w") as fh:
+        fh.write(txt)
+    rd = os.path.join(VERIF, "replays", prop)
+    for subject, msg in statics:
+        os.makedirs(rd, exist_ok=True)
+        path = os.path.join(rd, "static_rtproto_%s.txt" % re.sub(r"\W", "_", subject))
+        with open(path, "w") as fh:
+            fh.write("%s\n\nheader: %s\nreproduce: run `diplomat-tool c <out> --entry %s` and compare the prototype in <out>/diplomat_runtime.h "
+                     "with runtime/src/*.rs\n\n%s\n" % (msg, os.path.join(d, "c", "diplomat_runtime.h"), lib,
+                                                       "\n".join(l for l in cm.header_text.get("diplomat_runtime.h", "").split("\n") if "diplomat_" in l and "(" in l)))
+        out.setdefault("violations", []).append(("static:rtproto:" + subject, path, msg))
+    return True
+
+
 def prepare_cpp_writer(out):
     """C12: regenerate the C++ runtime header with the working tree's tool and translate its writer callbacks."""
     import cppwriter
@@ -112,6 +156,8 @@ def run(prop):
     prepare_rt_root()
     if prop == "C12" and prepare_cpp_writer(out):
         feats = (feats or []) + ["cppwriter"]
+    if prop in ("C01", "C12") and prepare_rt_protos(out, prop):
+        feats = (feats or []) + ["rtprotos"]
     for crate, tag, serves, needs_lock in CRATES:
         if prop not in serves:
             continue
